@@ -120,6 +120,7 @@ class ImageSet(BaseObject):
             d["digest"] = _makeDigest(data)
             d["onDisk"] = True
             d["onDiskModTime"] = reader.getFileModificationTime("%s/%s" % ("images", fileName))
+            d["onDiskDigest"] = d["digest"]
         return d["data"]
 
     def __setitem__(self, fileName, data):
@@ -135,6 +136,7 @@ class ImageSet(BaseObject):
         isNewImage = fileName not in self._data
         onDisk = False
         onDiskModTime = None
+        onDiskDigest = None
         if fileName in self._scheduledForDeletion:
             # preserve exsiting stamping
             assert fileName not in self._data
@@ -146,10 +148,11 @@ class ImageSet(BaseObject):
                 return
             onDisk = self._data[fileName]["onDisk"]
             onDiskModTime = self._data[fileName]["onDiskModTime"]
+            onDiskDigest = self._data[fileName]["onDiskDigest"]
             del self._data[fileName] # now remove it
         if isNewImage:
             self.postNotification("ImageSet.ImageWillBeAdded", data=dict(name=fileName))
-        self._data[fileName] = _imageDict(data=data, dirty=True, digest=digest, onDisk=onDisk, onDiskModTime=onDiskModTime)
+        self._data[fileName] = _imageDict(data=data, dirty=True, digest=digest, onDisk=onDisk, onDiskModTime=onDiskModTime, onDiskDigest=onDiskDigest)
         if isNewImage:
             self.postNotification("ImageSet.ImageAdded", data=dict(name=fileName))
         else:
@@ -214,6 +217,7 @@ class ImageSet(BaseObject):
             data["dirty"] = False
             data["onDisk"] = True
             data["onDiskModTime"] = writer.getFileModificationTime("%s/%s" % ("images", fileName))
+            data["onDiskDigest"] = data["digest"]
         self.dirty = False
 
     # ---------------
@@ -276,7 +280,9 @@ class ImageSet(BaseObject):
             elif self._scheduledForDeletion[fileName]["onDiskModTime"] != reader.getFileModificationTime(
                 "%s/%s" % ("images", fileName)
             ):
-                addedImages.append(fileName)
+                # not what was scheduled for deletion. consider this a new image.
+                if _makeDigest(reader.readImage(fileName)) != self._scheduledForDeletion[fileName]["onDiskDigest"]:
+                    addedImages.append(fileName)
         for fileName, imageData in self._data.items():
             # file on disk and has been loaded
             if fileName in filesOnDisk and imageData["data"] is not None:
@@ -284,7 +290,9 @@ class ImageSet(BaseObject):
                 if newModTime != imageData["onDiskModTime"]:
                     newData = reader.readImage(fileName)
                     newDigest = _makeDigest(newData)
-                    if newDigest != imageData["digest"]:
+                    # compare with what was read from or written to the file,
+                    # not with the image as it may have been changed in memory
+                    if newDigest != imageData["onDiskDigest"]:
                         modifiedImages.append(fileName)
                 continue
             # file removed
@@ -330,8 +338,8 @@ class ImageSet(BaseObject):
             # UFO written by another tool): store them as they are
             self._setImage(k, data[k], validateFileName=False)
 
-def _imageDict(data=None, dirty=False, digest=None, onDisk=True, onDiskModTime=None):
-    return dict(data=data, digest=digest, dirty=dirty, onDisk=onDisk, onDiskModTime=onDiskModTime)
+def _imageDict(data=None, dirty=False, digest=None, onDisk=True, onDiskModTime=None, onDiskDigest=None):
+    return dict(data=data, digest=digest, dirty=dirty, onDisk=onDisk, onDiskModTime=onDiskModTime, onDiskDigest=onDiskDigest)
 
 def _makeDigest(data):
     m = hashlib.md5()
